@@ -393,6 +393,12 @@ def remove_block(
         cfi_directives,
     )
 
+    # The outgoing edges need to be removed before the incoming edges are
+    # retargeted: removing a call edge also removes the callee's return edges
+    # to the call's return site, and a return edge that is retargeted from
+    # this block to the next block could otherwise be mistaken for one.
+    _remove_outgoing_edges(cache, block)
+
     if can_remove:
         sym_target = proxy_block or next_block or prev_block
         cache.reference_cache.retarget_references(
@@ -416,8 +422,6 @@ def remove_block(
             _update_pe_safe_seh(block, next_block)
 
         _remove_alignment(block)
-
-    _remove_outgoing_edges(cache, block)
 
     _remove_aux_data_entries(block)
 
